@@ -162,6 +162,9 @@ func (f *Frame) callByContract(ns *nodeState, x *ssa.Call, fc *FuncContract, fn 
 	for _, p := range fc.Preludes {
 		ex.needPrelude(p)
 	}
+	if fc.Mode == "bv" && vc.Mode != "bv" {
+		vc.assumeNote("contract of " + key + " is proved over bit-vectors and used here over mathematical integers (arguments and results within the machine range; bit-vector/integer transfer)")
+	}
 	ex.callSeq[key]++
 	ord := ex.callSeq[key]
 	base := fmt.Sprintf("%s.call.%s@%d", f.oblBase(), key, ord)
